@@ -67,7 +67,7 @@ def oracle(line, out):
                 return "buffer_path_simplify: " + v
     elif t[0] == "target":
         o = out.split(" ")
-        if o[0] == "ok" and t[2] == "0":
+        if o[0] == "ok" and t[2] in ("0", "2"):
             path = C.unhx(o[2])
             v = canonical_abs(path)
             if v:
@@ -127,6 +127,9 @@ def gen(ctx):
             for f in FLAGSETS:
                 url_lines.append("norm %d %s" % (f, C.hx(s)))
                 url_lines.append("target %d 0 %s" % (f, C.hx(b"/" + s)))
+                if n <= n_url - 1:
+                    # HTTP/2 extended CONNECT (RFC 8441) carries a :path like any other request
+                    url_lines.append("target %d 2 %s" % (f, C.hx(b"/" + s)))
     rng = ctx.rng
     nrand = 60000 if ctx.quick else 600000
     for _ in range(nrand):
@@ -137,11 +140,13 @@ def gen(ctx):
     for _ in range(nrand // 2):
         s = mutate(rng, rng.choice(TRAVERSAL))
         f = rng.choice(FLAGSETS)
-        url_lines.append("target %d 0 %s" % (f, C.hx(s)))
+        url_lines.append("target %d %d %s" % (f, rng.choice([0, 0, 2]), C.hx(s)))
         url_lines.append("decsimp " + C.hx(s))
     for s in TRAVERSAL:
         for f in FLAGSETS:
             url_lines.append("target %d 0 %s" % (f, C.hx(s.replace(b"%00", b""))))
+            url_lines.append("target %d 2 %s" % (f, C.hx(s.replace(b"%00", b""))))
+            url_lines.append("target %d 1 %s" % (f, C.hx(s.replace(b"%00", b""))))
     ctx.exhaustive = False
     ctx.notes.append("exhaustive: all strings of length <= %d over %d-symbol path alphabet (simp/dec) and "
                      "length <= %d over %d-symbol url alphabet x %d parseopts sets (norm/target); plus random "
@@ -509,6 +514,17 @@ def build_symtree(base, rootname="root", marker=False):
     os.symlink("nonexistent", os.path.join(root, "l_broken"))
     os.symlink("..", os.path.join(root, "d1", "l_up"))
     os.symlink("/", os.path.join(root, "d1", "d2", "l_abs"))
+    # index files: dirA -> outside, dirB regular, dirC -> inside (still a link), dirD/sub a linked directory, dirE none
+    for d in ("dirA", "dirB", "dirC", "dirD", "dirE"):
+        os.makedirs(os.path.join(root, d))
+    sec = os.path.join(base, "outside", "secret.html")
+    open(sec, "w").write("OUTSIDE:" + sec + "\n")
+    os.symlink(sec, os.path.join(root, "dirA", "index.html"))
+    for p in ("dirB/index.html", "d1/index.html", "d1/idx.html"):
+        fp = os.path.join(root, p)
+        open(fp, "w").write(("FILE:" + fp + "\n") if marker else ("in:" + p))
+    os.symlink("../f0", os.path.join(root, "dirC", "index.html"))
+    os.symlink("../d1", os.path.join(root, "dirD", "sub"))
     return root
 
 
@@ -557,6 +573,51 @@ def gen_symwalk(ctx, root):
     return lines
 
 
+INDEX_NAMES = [b"index.html", b"f", b"d2/f", b"/f0", b"nx", b"l_f", b"/d1/f", b"l_d/f", b"/l_out/canary", b"l_broken", b"idx.html",
+               b"sub/idx.html", b"/", b"f/x", b"../f0", b"d2/"]
+
+
+def gen_indexfile(ctx, root):
+    """mod_indexfile_tryfiles on the real tree: every directory spelling x lists of index names"""
+    rng = ctx.rng
+    rootb = root.encode()
+    dirs = [b"/", b"/d1/", b"/d1/d2/", b"/l_d/", b"/d1/l_up/", b"/l_out/", b"/nx/", b"/d1", b"/f0/", b"/d1/d2/l_abs/tmp/", b"/dirA/", b"/dirB/",
+            b"/dirC/", b"/dirD/", b"/dirE/"]
+    lines = []
+    for d in dirs:
+        for dr in (rootb, rootb + b"/"):
+            phys = rootb + d
+            for k in range(0, 4):
+                for _ in range(1 if k == 0 else (12 if ctx.quick else 120)):
+                    names = [rng.choice(INDEX_NAMES) for _ in range(k)]
+                    ex = []
+                    for v in names:
+                        c = pyjoin(dr if v.startswith(b"/") else phys, v)
+                        if os.path.exists(c) and c not in ex:
+                            ex.append(c)
+                    lines.append(jn("idxfile", C.hx(dr), C.hx(phys), str(len(names)), *[C.hx(v) for v in names], str(len(ex)), *[C.hx(c) for c in ex]))
+    return lines
+
+
+def oracle_indexfile(line, out):
+    t = line.split(" ")
+    o = out.split(" ")
+    if o[0] != "go":
+        return None
+    dr, phys, p = C.unhx(t[1]), C.unhx(t[2]), C.unhx(o[1])
+    k = int(t[3])
+    names = [C.unhx(x) for x in t[4:4 + k]]
+    if p != phys and p not in [pyjoin(dr if v.startswith(b"/") else phys, v) for v in names]:
+        return "mod_indexfile: physical path is not directory + configured index name"
+    return None
+
+
+def classify_indexfile(line, out):
+    t = line.split(" ")
+    o = out.split(" ")
+    return "idxfile:n%s:%s" % (t[3], "same" if (o[0] == "go" and o[1] == t[2]) else ("index" if o[0] == "go" else out))
+
+
 def oracle_symwalk(line, out):
     t = line.split(" ")
     nm = C.unhx(t[1])
@@ -593,18 +654,20 @@ P_REQ = (8303, 'server.http-parseopts = ("url-normalize-required" => "enable", "
 P_REJ = (10847, 'server.http-parseopts = ("url-path-2f-decode" => "disable", "url-path-2f-reject" => "enable", '
                 '"url-path-dotseg-remove" => "disable", "url-path-dotseg-reject" => "enable")\n')
 P_LENHOST = (9561, 'server.http-parseopts = ("host-strict" => "disable", "host-normalize" => "disable")\n')
-E2E_COMMON = '''
-server.stat-cache-engine = "disable"
+E2E_BASE = '''
 server.feature-flags = ("server.h2proto" => "enable", "server.h2c" => "enable")
 server.max-keep-alive-idle = 30
 server.max-read-idle = 30
 server.max-write-idle = 30
-index-file.names = ()
 dir-listing.activate = "disable"
+'''
+E2E_COMMON = E2E_BASE + '''
+server.stat-cache-engine = "disable"
+index-file.names = ()
 '''
 DOTDOT = [b"/..", b"/%2e%2e", b"/.%2e", b"/%2E.", b"/..%2f", b"%2f..", b"/..%5c", b"/..\\", b"/%252e%252e", b"/..;",
           b"/%c0%ae%c0%ae", b"/..%01", b"/...", b"/./..", b"//..", b"/..%2F..", b"/%2e%2e%2f%2e%2e"]
-CANARY_TAILS = [b"/canary.txt", b"/outside/canary.txt", b"/docroot-x/canary.txt", b"/al1-secret/canary.txt", b"/htdocs/canary.txt",
+CANARY_TAILS = [b"/outside/secret.shtml", b"/canary.shtml", b"/canary.txt", b"/outside/canary.txt", b"/docroot-x/canary.txt", b"/al1-secret/canary.txt", b"/htdocs/canary.txt",
                 b"/vh/canary.txt", b"/xs-secret/canary.txt", b"/etc/passwd", b"/al/canary.txt"]
 
 
@@ -624,31 +687,38 @@ def plant(root, rels, canaries):
 
 
 BASE_FILES = ["docroot/f.txt", "docroot/sub/g.txt", "docroot/sub/deep/h.txt", "docroot/x.y/z.txt", "docroot/al1x/n.txt",
-              "al1/a.txt", "al1/s/b.txt", "al2/c.txt", "al3/lower.txt",
+              "al1/a.txt", "al1/s/b.txt", "al2/c.txt", "al3/lower.txt", "al4_eqlen_/e.txt",
               "vh/a.example/htdocs/v.txt", "vh/b.example/htdocs/v.txt", "vh/default/htdocs/v.txt", "vh/a.example/w.txt",
               "vh/default/w.txt", "vh/example/htdocs/v.txt", "xs/s.txt", "xs/d/t.txt",
-              "vh/htdocs/v.txt", "vh/w.txt", "vh/v.txt"]
+              "vh/htdocs/v.txt", "vh/w.txt", "vh/v.txt", "docroot/app/page.shtml", "docroot/p.shtml"]
 BASE_CANARIES = ["canary.txt", "outside/canary.txt", "docroot-x/canary.txt", "al1-secret/canary.txt", "al/canary.txt",
                  "htdocs/canary.txt", "htdocs/v.txt",
                  "xs-secret/canary.txt", "xsx/canary.txt", "v.txt", "w.txt", "vh-secret/htdocs/v.txt",
-                 "outside/htdocs/v.txt", "outside/v.txt", "outside/w.txt", "outside/htdocs/canary.txt"]
+                 "outside/htdocs/v.txt", "outside/v.txt", "outside/w.txt", "outside/htdocs/canary.txt",
+                 "outside/secret.shtml", "canary.shtml", "docroot-x/canary.shtml", "page.shtml", "app/page.shtml"]
 
 
 def static_configs():
     """name -> dict(conf, modules, flags, lc, vh(tokens as bytes), aliases, roots (relative to the server root), urls, hosts)"""
-    al = [(b"/al1", "al1/"), (b"/al2/", "al2/")]
-    alconf = 'alias.url = ("/al1" => "@ROOT@/al1/", "/al2/" => "@ROOT@/al2/")\n'
-    good_al = [b"/f.txt", b"/sub/g.txt", b"/sub/deep/h.txt", b"/x.y/z.txt", b"/al1/a.txt", b"/al1/s/b.txt", b"/al2/c.txt", b"/al1x/n.txt"]
+    # ("/al4": the target is exactly as long as doc root + key, the in-place overwrite case of mod_alias_remap)
+    al = [(b"/al1", "al1/"), (b"/al2/", "al2/"), (b"/al4", "al4_eqlen_/")]
+    alconf = 'alias.url = ("/al1" => "@ROOT@/al1/", "/al2/" => "@ROOT@/al2/", "/al4" => "@ROOT@/al4_eqlen_/")\n'
+    good_al = [b"/f.txt", b"/sub/g.txt", b"/sub/deep/h.txt", b"/x.y/z.txt", b"/al1/a.txt", b"/al1/s/b.txt", b"/al2/c.txt", b"/al1x/n.txt",
+               b"/al4/e.txt"]
     hosts_plain = [b"localhost", b"a.example"]
     cfgs = {}
     for nm, (fl, pc) in (("alias-default", P_DEFAULT), ("alias-nonorm", P_OFF), ("alias-required", P_REQ), ("alias-reject", P_REJ)):
         cfgs[nm] = dict(conf=pc + alconf, modules=("mod_alias",), flags=fl, lc=0, vh=("none",), aliases=al,
-                        roots=["docroot", "al1", "al2"], urls=good_al, hosts=hosts_plain,
-                        prefixes=[b"", b"/sub", b"/al1", b"/al1/", b"/al1/s", b"/al2", b"/al2/", b"/al1x"])
+                        roots=["docroot", "al1", "al2", "al4_eqlen_"], urls=good_al, hosts=hosts_plain,
+                        prefixes=[b"", b"/sub", b"/al1", b"/al1/", b"/al1/s", b"/al2", b"/al2/", b"/al1x", b"/al4"])
     cfgs["alias-lowercase"] = dict(conf='server.force-lowercase-filenames = "enable"\n' + alconf + 'alias.url += ("/AL3/" => "@ROOT@/al3/")\n',
                                    modules=("mod_alias",), flags=P_DEFAULT[0], lc=1, vh=("none",), aliases=al + [(b"/AL3/", "al3/")],
-                                   roots=["docroot", "al1", "al2", "al3"], urls=good_al + [b"/AL1/A.TXT", b"/al3/lower.txt", b"/Al3/LOWER.txt", b"/SUB/G.TXT"],
+                                   roots=["docroot", "al1", "al2", "al3", "al4_eqlen_"], urls=good_al + [b"/AL1/A.TXT", b"/al3/lower.txt", b"/Al3/LOWER.txt", b"/SUB/G.TXT"],
                                    hosts=hosts_plain, prefixes=[b"", b"/SUB", b"/AL1", b"/al3/", b"/AL3/"])
+    # a handler that does not look at the method (mod_ssi): HTTP/2 extended CONNECT (RFC 8441) reaches it
+    cfgs["ssi-default"] = dict(conf='ssi.extension = (".shtml")\n', modules=("mod_ssi",), flags=P_DEFAULT[0], lc=0, vh=("none",), aliases=[],
+                               roots=["docroot"], urls=[b"/app/page.shtml", b"/p.shtml", b"/f.txt", b"/sub/g.txt"], hosts=hosts_plain,
+                               prefixes=[b"", b"/app", b"/sub"], connect=True)
     vhosts = [b"a.example", b"b.example", b"A.Example", b"a.example:80", b"a.example:8080", b"a.example.", b"unknown.example",
               b"www.a.example", b"example", b"..", b".", b"../outside", b"a.example/../../outside", b"..:80", b"a..example",
               b"%2e%2e", b".a.example", b"vh-secret", b":80", b"a.example:80:90", b"/", b"a.example/", b"..%2f", b"a.example/htdocs",
@@ -704,7 +774,7 @@ def gen_targets(rng, cfg, n):
             if rng.random() < 0.3:
                 t = respell(rng, t)
         elif r_ < 0.9:
-            t = rng.choice([b"/al1", b"/AL1", b"/al2", b"/al1x", b"/sub", b"/htdocs", b""]) + \
+            t = rng.choice([b"/al1", b"/AL1", b"/al2", b"/al1x", b"/sub", b"/htdocs", b"", b"/al4", b"/al4"]) + \
                 rng.choice([b"..", b".", b"../canary.txt", b"%2e%2e/canary.txt", b"./a.txt", b"-secret/canary.txt", b"../al1-secret/canary.txt",
                             b"..%2fcanary.txt", b".%2e/canary.txt", b"/.", b"/..", b"../", b"x/../../canary.txt"])
         else:
@@ -767,6 +837,34 @@ class _H2Client:
             self.c.close()
 
 
+def _h2_ext_connect(port, authority, path):
+    """HTTP/2 extended CONNECT (":protocol: websocket") on a fresh connection; the request stream stays open"""
+    c = e2e.H2Conn(port)
+    try:
+        c.pump(3.0, until=lambda f: any(x[0] == 4 and not (x[1] & 1) for x in f))
+        c.frames.clear()
+        hs = [(":method", "CONNECT"), (":protocol", "websocket"), (":scheme", "http"), (":path", path), (":authority", authority)]
+        c.send(c.headers_frame(1, hs, end_stream=False))
+
+        def done(fr):
+            return any((f[2] == 1 and ((f[0] in (0, 1) and f[1] & 1) or f[0] == 3)) or f[0] == 7 for f in fr)
+        c.pump(1.5, until=done)
+        try:
+            st = e2e.h2_collect(c.frames, c.hp)
+        except Exception:
+            st = {}
+        d = st.get(1)
+        if d and d["headers"]:
+            hd = dict(d["headers"])
+            try:
+                return int(hd.get(b":status", b"0")), d["body"], d["headers"]
+            except ValueError:
+                return 0, d["body"], d["headers"]
+        return None, b"", []
+    finally:
+        c.close()
+
+
 def _h1_get(port, host, target, absolute=False, method=b"GET", extra=b""):
     t = (b"http://" + host + target) if absolute else target
     req = method + b" " + t + b" HTTP/1.1\r\nHost: " + host + b"\r\n" + extra + b"Connection: close\r\n\r\n"
@@ -816,6 +914,8 @@ def e2e_static_cases(ctx, name, cfg, n):
         h = bytes(c for c in h if c not in (0, 10, 13)) or b"x"
         r_ = rng.random()
         tr = "h2" if r_ < 0.25 else ("abs" if r_ < 0.4 and b"/" not in h and t.startswith(b"/") else "h1")
+        if cfg.get("connect") and rng.random() < 0.5:
+            tr = "h2c"
         if tr != "h2" and (h != h.strip(b" \t") or not h):
             h = b"a.example"
         cases.append({"cfg": name, "host": h, "target": t, "tr": tr})
@@ -865,6 +965,8 @@ def e2e_run_static(port, cases, nthreads=8):
             try:
                 if c["tr"] == "h2":
                     res.append(h2.get(c["host"], c["target"]))
+                elif c["tr"] == "h2c":
+                    res.append(_h2_ext_connect(port, c["host"], c["target"]))
                 else:
                     res.append(_h1_get(port, c["host"], c["target"], absolute=(c["tr"] == "abs")))
             except OSError as ex:
@@ -905,7 +1007,8 @@ def e2e_eval_static(ctx, name, cfg, rootb, case, model_line, pred, obs):
                 and not _norm(mp).startswith(_norm(f) + b"/"):
             return None, "served %s, model path %s" % (f.decode("latin-1"), mp.decode("latin-1"))
     # completeness on plainly spelled requests (the request parser itself is C01's business)
-    if _safe_ascii(case["target"]) and _safe_ascii(case["host"]) and b"#" not in case["target"] and case["target"].startswith(b"/"):
+    if case["tr"] != "h2c" and _safe_ascii(case["target"]) and _safe_ascii(case["host"]) and b"#" not in case["target"] \
+            and case["target"].startswith(b"/"):
         if p[0] == "rej" and status != int(p[1]) and not (case["tr"] == "h2" and status in (400, -1001, -1002)):
             return None, "model rejects with %s, server answered %s" % (p[1], status)
         if p[0] == "path":
@@ -1251,7 +1354,8 @@ def e2e_symlink(ctx, bd, n):
     os.rmdir(srv.docroot)
     build_symtree(srv.root, rootname="docroot", marker=True)
     plant(srv.root, [], ["canary.txt"])
-    comps = [b"d1", b"d2", b"f", b"f0", b"l_d", b"l_f", b"l_out", b"l_broken", b"l_up", b"l_abs", b"nx", b"canary", b"docroot", b"tmp"]
+    comps = [b"d1", b"d2", b"f", b"f0", b"l_d", b"l_f", b"l_out", b"l_broken", b"l_up", b"l_abs", b"nx", b"canary", b"docroot", b"tmp",
+             b"dirA", b"dirC", b"dirD", b"sub", b"index.html", b"idx.html", b"secret.html"]
     targets = set()
     for k in range(1, 5):
         for t in itertools.product(comps, repeat=k):
@@ -1310,8 +1414,8 @@ def e2e_symlink(ctx, bd, n):
             cur += b"/" + comp
             if comp and os.path.islink(cur):
                 haslink = True
-        if b"CANARY" in body:
-            ov = "canary content served with follow-symlink disabled"
+        if b"CANARY" in body or b"OUTSIDE:" in body:
+            ov = "content from outside the document root served with follow-symlink disabled"
         elif status == 200 and haslink:
             ov = "path through a symbolic link served with follow-symlink disabled: " + u.decode()
         elif status is not None:
@@ -1326,6 +1430,125 @@ def e2e_symlink(ctx, bd, n):
             ndis += 1 if cv else 0
             e2e_report(ctx, "e2e-symlink", {"cfg": "symlink", "target": u}, line, pred, ob, ov, cv)
     ctx.streams.append({"name": "e2e-symlink", "cases": len(targets), "disagreements": ndis, "oracle_hits": nor,
+                        "wall_s": round(time.time() - t0, 2)})
+
+
+# ---- follow-symlink per configuration context + index files + warm stat cache
+SYMCTX_INDEX = [b"index.html", b"sub/idx.html"]
+
+
+def e2e_symlink_ctx(ctx, bd, n):
+    """sequences of requests on the same paths from a context where symlinks may be followed (Host: trusted.example)
+    and from one where they may not; the stat cache is ON, so descriptors opened for one context are there when the
+    other asks.  Every request is judged on its own: model = staticServed (no cache in the model), oracle = no
+    symlink component (lstat'ed here) in the path of a file served to the restricted context"""
+    t0 = time.time()
+    rng = ctx.rng
+    conf = ('server.follow-symlink = "disable"\nindex-file.names = ("index.html", "sub/idx.html")\n'
+            '$HTTP["host"] == "trusted.example" { server.follow-symlink = "enable" }\n')
+    srv = e2e.Server(bd, E2E_BASE + conf, modules=())
+    os.rmdir(srv.docroot)
+    build_symtree(srv.root, rootname="docroot", marker=True)
+    D = srv.docroot.encode()
+    targets = [b"/dirA/", b"/dirA/index.html", b"/dirB/", b"/dirB/index.html", b"/dirC/", b"/dirC/index.html", b"/dirD/", b"/dirD/sub/idx.html",
+               b"/dirD/sub/", b"/dirE/", b"/l_d/", b"/l_d/index.html", b"/d1/", b"/d1/index.html", b"/l_f", b"/f0", b"/d1/l_up/f0", b"/l_out/secret.html",
+               b"/l_out/", b"/d1/l_up/dirA/", b"/d1/l_up/dirB/", b"/", b"/d1/d2/", b"/d1/f", b"/l_d/f", b"/d1/l_up/dirB/index.html"]
+    pats = ["TP", "PTP", "P", "TTPP", "TPTP", "PT", "TPP"]
+    seqs = []
+    for t in targets:
+        for pat in pats:
+            seqs.append((t, pat))
+    for _ in range(n):
+        seqs.append((rng.choice(targets), "".join(rng.choice("TP") for _ in range(rng.randint(2, 6)))))
+    rng.shuffle(seqs)
+
+    def candidates(u):
+        phys = D + u
+        names = SYMCTX_INDEX if (u.endswith(b"/") and os.path.isdir(phys)) else []
+        return phys, names, [pyjoin(phys, v) for v in names]
+
+    def has_link(pth):
+        cur = b""
+        for comp in pth.split(b"/")[1:]:
+            cur += b"/" + comp
+            if comp and os.path.islink(cur):
+                return True
+        return False
+    # model: one line per (target, context)
+    mlines = {}
+    for u in targets:
+        phys, names, cands = candidates(u)
+        ex = [c for c in cands if os.path.exists(c)]
+        probes = []
+        for x in [phys] + cands:
+            for p_ in sym_probes(x):
+                if p_ not in probes:
+                    probes.append(p_)
+        for fo in ("0", "1"):
+            mlines[(u, fo)] = jn("idxserve", fo, C.hx(D), C.hx(phys), str(len(names)), *[C.hx(v) for v in names], str(len(ex)),
+                                 *[C.hx(c) for c in ex], *["%s:%s" % (C.hx(p_), kind_of(p_)) for p_ in probes])
+    keys = sorted(mlines)
+    out, rc, err = C.run_model("url", [mlines[k] for k in keys])
+    if rc != 0 or len(out) != len(keys):
+        ctx.broken.append({"kind": "model-run", "names": ["url"], "log": err[-2000:]})
+        return
+    pred = dict(zip(keys, out))
+    results = []
+    with srv:
+        def run_seq(sq):
+            u, pat = sq
+            res = []
+            for ch in pat:
+                host = b"trusted.example" if ch == "T" else b"public.example"
+                try:
+                    res.append((ch, _h1_get(srv.port, host, u)))
+                except OSError as ex_:
+                    res.append((ch, (None, str(ex_).encode(), [])))
+            return res
+        with ThreadPoolExecutor(4) as ex_:
+            results = list(ex_.map(run_seq, seqs))
+        alive = srv.alive()
+    rep = srv.sanitizer_report()
+    if rep or not alive:
+        ctx.violation("crash:e2e:symlink-ctx", "server crashed / sanitizer report in e2e config symlink-ctx",
+                      {"property": ctx.pid, "kind": "sanitizer-or-crash", "correspondence": "e2e-symlink-ctx", "input": "symlink-ctx",
+                       "stderr": (rep or srv.logs())[-4000:]}, found=True)
+        return
+    ndis = nor = ncase = 0
+    for (u, pat), res in zip(seqs, results):
+        phys, names, cands = candidates(u)
+        for i, (ch, ob) in enumerate(res):
+            status, body, headers = ob
+            fo = "1" if ch == "T" else "0"
+            pr = pred[(u, fo)].split(" ")
+            final, served = C.unhx(pr[0]), pr[1] == "1"
+            ncase += 1
+            ctx.evaluations += 1
+            ctx.keys["e2e:symlink-ctx:%s:%s:%s" % (ch, pr[1], status)] += 1
+            ov = cv = None
+            f = None
+            if status == 200 and (body.startswith(b"FILE:") or body.startswith(b"OUTSIDE:")):
+                f = body.split(b":", 1)[1].rstrip(b"\n")
+            if ch == "P" and f is not None:
+                ok = any(os.path.exists(c) and os.path.realpath(c) == os.path.realpath(f) and not has_link(c) for c in [phys] + cands)
+                if not ok:
+                    ov = ("file reached through a symbolic link served in a context where follow-symlink is disabled: %s -> %s (after %s)"
+                          % (u.decode(), f.decode("latin-1"), pat[:i] or "nothing"))
+            if ov is None and status is not None:
+                if f is not None and not served:
+                    cv = "served although the model refuses (%s, context %s, after %s)" % (u.decode(), ch, pat[:i])
+                elif not served and os.path.exists(final) and status != 403:
+                    cv = "model refuses, server answered %s (%s, context %s)" % (status, u.decode(), ch)
+                elif served and os.path.isfile(final) and f is None:
+                    cv = "model serves %s, server answered %s (context %s)" % (final.decode("latin-1"), status, ch)
+                elif served and f is not None and os.path.realpath(final) != os.path.realpath(f):
+                    cv = "served %s, model %s" % (f.decode("latin-1"), final.decode("latin-1"))
+            if ov or cv:
+                nor += 1 if ov else 0
+                ndis += 1 if cv else 0
+                e2e_report(ctx, "e2e-symlink-ctx", {"cfg": "symlink-ctx", "target": u, "sequence": pat, "step": i}, mlines[(u, fo)],
+                           pred[(u, fo)], ob, ov, cv)
+    ctx.streams.append({"name": "e2e-symlink-ctx", "cases": ncase, "disagreements": ndis, "oracle_hits": nor,
                         "wall_s": round(time.time() - t0, 2)})
 
 
@@ -1348,13 +1571,16 @@ def run_e2e(ctx, only=None):
         jobs.append(lambda: e2e_webdav(ctx, bd, n))
     if only in (None, "symlink"):
         jobs.append(lambda: e2e_symlink(ctx, bd, 1500 if ctx.quick else 8000))
+    if only in (None, "symlink-ctx"):
+        jobs.append(lambda: e2e_symlink_ctx(ctx, bd, 150 if ctx.quick else 3000))
     # (generation draws from ctx.rng: keep the order deterministic by running jobs one after another;
     #  each job is internally parallel)
     for j in jobs:
         j()
     ctx.notes.append("e2e: %d server configurations (alias x 4 parseopts sets + force-lowercase, simple-vhost x 3, evhost x 4, "
-                     "CGI X-Sendfile, WebDAV COPY/MOVE, follow-symlink off); transports h1 origin-form, h1 absolute-form, h2 :path"
-                     % (len(cfgs) + 3))
+                     "mod_ssi, CGI X-Sendfile, WebDAV COPY/MOVE/PUT/DELETE/MKCOL, follow-symlink off, follow-symlink per context with index "
+                     "files and warm stat cache); transports h1 origin-form, h1 absolute-form, h2 :path, h2 extended CONNECT"
+                     % (len(cfgs) + 4))
 
 
 def replay_e2e(ctx, rep):
@@ -1410,6 +1636,7 @@ def run(ctx):
     base = C.scratch_dir("sym")
     root = build_symtree(base)
     ctx.differential("symlink-walk(real fs)", [exe2], "url", gen_symwalk(ctx, root), oracle_symwalk, classify_symwalk)
+    ctx.differential("index-file(real fs)", [exe2], "url", gen_indexfile(ctx, root), oracle_indexfile, classify_indexfile)
     run_e2e(ctx)
     ctx.rule = ("cases: every string up to a bounded length over the path/host metacharacter alphabets, per "
                 "parseopts set / configuration, plus random and mutated traversal strings; e2e: requests against "
